@@ -49,6 +49,8 @@ LIFE = [0, 0.5, 1, 2, 4, 4.5, 5, 5.5, 6.5, 7, 8, 12]
 def gen(rng, tier, index):
     if rng.random() < 0.25:
         n = rng.randint(1, 200) if rng.random() < 0.5 else rng.randint(1, 20)
+        if rng.random() < 0.02:
+            n = rng.randint(1030, 1300)  # counters, shifts and float powers overflow beyond 1024 failures
         p_reset = rng.choice([0.0, 0.05, 0.2, 0.5])
         ops = "".join("r" if rng.random() < p_reset else "f" for _ in range(n))
         yield {"kind": "strategy", "max_delay": rng.choice([1, 2, 3, 59, 60, 61, 64, 3600, rng.randint(1, 3600)]), "ops": ops}
@@ -57,13 +59,13 @@ def gen(rng, tier, index):
     long_outage = rng.random() < 0.15
     for _ in range(rng.randint(1, 8)):
         if long_outage:  # a long outage: the back-off must climb to its cap and stay there
-            script.append({"o": "fail", "d": rng.choice([0, 0, 0.5])})
+            script.append({"o": "fail", "d": rng.choice([0, 0, 0.5]), "noargs": rng.random() < 0.25, "exc": rng.choice(["OSError", "TimeoutError", "EOFError"])})
         elif rng.random() < 0.45:
             # lifetimes on the coarse grid, or on a 1/16 s grid (exact in binary and in datetime's microseconds)
             life = rng.choice(LIFE) if rng.random() < 0.65 else rng.randrange(0, 9 * 16) / 16
             script.append({"o": "ok", "d": rng.choice(DGRID), "life": life})
         else:
-            script.append({"o": "fail", "d": rng.choice(DGRID), "exc": rng.choice(["OSError", "OSError", "TimeoutError", "RuntimeError", "ValueError"])})
+            script.append({"o": "fail", "d": rng.choice(DGRID), "exc": rng.choice(["OSError", "OSError", "TimeoutError", "RuntimeError", "ValueError"]), "noargs": rng.random() < 0.25})
     yield {
         "kind": "manager",
         "script": script,
